@@ -36,6 +36,43 @@ class WriteOnlySink:
         return b"".join(self._chunks)
 
 
+class RetainingSink:
+    """keeps the very objects it was handed (as a transport queueing data by reference does) and
+    only looks at them at the end: what was written must not be changed afterwards"""
+
+    def __init__(self):
+        self.chunks = []
+
+    def write(self, data):
+        self.chunks.append(data)
+        return len(data)
+
+    def value(self):
+        return b"".join(bytes(c) for c in self.chunks)
+
+
+def widen_arrays(obj, n=600):
+    """`obj` with its arrays of fixed-width integers grown to `n` distinct items (several blocks of
+    any internal batching), nested structures included"""
+    import dataclasses
+    import typing
+    if not dataclasses.is_dataclass(obj) or isinstance(obj, type):
+        return obj
+    hints = typing.get_type_hints(type(obj))
+    ch = {}
+    for f in dataclasses.fields(obj):
+        v = getattr(obj, f.name)
+        kt = f.metadata.get("kafka_type")
+        if isinstance(v, tuple) and kt in ("int8", "int16", "int32", "int64", "uint16", "uint32"):
+            lim = {"int8": 127, "int16": 2**15 - 1, "uint16": 2**16 - 1}.get(kt, 2**31 - 1)
+            ch[f.name] = tuple((7 * j + 1) % lim for j in range(n))
+        elif isinstance(v, tuple) and v and dataclasses.is_dataclass(v[0]):
+            ch[f.name] = (widen_arrays(v[0], n),) + v[1:]
+        elif dataclasses.is_dataclass(v) and not isinstance(v, type):
+            ch[f.name] = widen_arrays(v, n)
+    return dataclasses.replace(obj, **ch) if ch else obj
+
+
 class ReadOnlySource:
     """exposes only read(n) with an explicit non-negative int"""
     __slots__ = ("_data", "pos", "bad")
@@ -145,7 +182,7 @@ def run(ctx):
     fails, lines, meta = [], [], []
     nmsgs = 0
     nontrivial = set()
-    kinds_used = {"bytesio": 0, "write_only": 0, "stream_writer": 0, "read_only": 0}
+    kinds_used = {"bytesio": 0, "write_only": 0, "retaining": 0, "stream_writer": 0, "read_only": 0}
     for s in range(nseq):
         k = rng.choice([1, 2, 3, 5])
         msgs = []
@@ -162,6 +199,9 @@ def run(ctx):
         outs = {}
         sink1 = io.BytesIO(); sink1.write(leading)
         sink2 = WriteOnlySink(); sink2.write(leading)
+        sink3 = RetainingSink(); sink3.write(leading)
+        if rng.random() < 0.3:
+            msgs = [(i, values.abstract(w), w) for i, a, obj in msgs for w in (widen_arrays(obj),)]
         sw, tr, loop = stream_writer(); sw.write(leading)
         try:
             for i, a, obj in msgs:
@@ -177,6 +217,7 @@ def run(ctx):
                             nspoiled[0] += 1
                 entity_writer(c)(sink1, obj)
                 entity_writer(c)(sink2, obj)
+                entity_writer(c)(sink3, obj)
                 entity_writer(c)(sw, obj)
         except Exception as e:  # noqa: BLE001
             loop.close()
@@ -184,6 +225,7 @@ def run(ctx):
         loop.close()
         outs["bytesio"] = sink1.getvalue()
         outs["write_only"] = sink2.value()
+        outs["retaining"] = sink3.value()
         outs["stream_writer"] = b"".join(tr.chunks)
         for kd in outs:
             kinds_used[kd] += 1
